@@ -220,20 +220,23 @@ namespace fastscapelib
 
         private:
             std::unique_ptr<basin_graph_type> m_basin_graph_ptr;
+            mst_method m_basin_graph_method = mst_method::kruskal;
 
             // basin graph edges are oriented in the counter flow direction
             static constexpr std::uint8_t outflow = 0;
             static constexpr std::uint8_t inflow = 1;
 
             /*
-             * Get the basin graph instance, create it if it doesn't exists.
+             * Get the basin graph instance, create it if it doesn't exists (or if the
+             * basin method of the operator has been changed since it was created).
              */
             basin_graph_type& get_basin_graph(const graph_impl_type& graph_impl)
             {
-                if (!m_basin_graph_ptr)
+                if (!m_basin_graph_ptr || m_basin_graph_method != this->m_op_ptr->m_basin_method)
                 {
-                    m_basin_graph_ptr = std::make_unique<basin_graph_type>(
-                        graph_impl, this->m_op_ptr->m_basin_method);
+                    m_basin_graph_method = this->m_op_ptr->m_basin_method;
+                    m_basin_graph_ptr
+                        = std::make_unique<basin_graph_type>(graph_impl, m_basin_graph_method);
                 }
 
                 return *m_basin_graph_ptr;
